@@ -62,6 +62,7 @@ func (e *Engine) exploreLocal(thunk func() value) (results []mergeResult, ok boo
 	outer := e.cur
 	undoBase := len(e.undo)
 	ndBase := len(e.nd)
+	inBase, ufBase := e.internalN, len(e.ufCalls)
 	var local []workItem
 	nlocal := 0
 	e.mergeDepth++
@@ -70,6 +71,16 @@ func (e *Engine) exploreLocal(thunk func() value) (results []mergeResult, ok boo
 		e.cur = outer
 		if r := recover(); r != nil {
 			e.rollback(undoBase)
+			// the aborted attempt must leave no trace in the numbering of
+			// nondeterministic choices: the region is re-run by forking and a
+			// replay of this path (possibly on a worker that skips the
+			// attempt) has to produce the same variable names
+			e.nd = e.nd[:ndBase]
+			e.ndTerms = e.ndTerms[:ndBase]
+			e.internalN = inBase
+			if len(e.ufCalls) > ufBase {
+				e.ufCalls = e.ufCalls[:ufBase]
+			}
 			if _, isAbort := r.(mergeAbort); isAbort {
 				results, ok = nil, false
 				return
